@@ -16,6 +16,15 @@ CHECKS = {
               "the exported C functions (ASan build) on every 16-bit value, boundary/random 32/64-bit values and every packer length."),
         note=TB_COMMON + "Host little-endian LP64; the inline residual-bit reader of the decoders is tied through C01, not here.",
         technique="Coq proof (induction + finite sweeps lifted by forallb_forall) + model/implementation differential check"),
+    "C09": dict(
+        category="proof", design_ref="DESIGN.md §4 C09",
+        text=("Theorems over the Gallina translation of computeDimension/computeDataLength/filterDimension regenerated from sz.c on every "
+              "run (c2gallina): the filter removes exactly the size-1 dimensions (all-ones -> (1)), preserves the element count, is idempotent, "
+              "squeezed and unsqueezed tuples dispatch identically, and only a genuine 5-D request reaches the refusing branch. The generated "
+              "code is compared with the compiled C on every tuple over {1,2,3,5,21}^<=5; end-to-end round trips (ASan) with equal and squeezed "
+              "tuples for all ten element types check count, bound and 5-D refusal."),
+        note=TB_COMMON + "c2gallina (clang JSON AST -> Gallina, unsigned wrap mod 2^64); tuple sizes < 2^12 in the theorems; kernel correctness itself is C01-C03 (their listed finding classes are subtracted by exact class predicate).",
+        technique="Coq proof over code translated from the C source on every run + differential check + end-to-end oracle"),
 }
 
 NOT_YET = {}
